@@ -83,3 +83,13 @@ Theorem C11_no_history_lost_all_runs : forall cfg g0 ls g,
   no_history_lost g /\ snaps_increasing g.
 Proof. exact no_history_lost_all_runs. Qed.
 Print Assumptions C11_no_history_lost_all_runs.
+
+(* Tie 2 (translator, every run): the decision tree of compactLogsWithTrailing, regenerated from snapshot.go
+   (Model/GenTrees.v: the guards, the local definition maxLog := min(snapIdx, lastLogIdx-trailingLogs) and the
+   DeleteRange call), issues exactly the range of Model/Compaction.v compact - at most one DeleteRange, never
+   above min(snapshot index, last - trailing) - for all values of first/snapshot/last/trailing *)
+From RaftModel Require Import GenTrees Trees.
+From RaftProofs Require Import GenTreesSpec GenTreesProofs.
+Theorem C11_regenerated_compaction_is_the_model : compaction_tree_agrees.
+Proof. exact compaction_tree_agrees_holds. Qed.
+Print Assumptions C11_regenerated_compaction_is_the_model.
